@@ -621,7 +621,7 @@ package mqtt
 //@ func mqtt.(*Client).toOffline
 //@ modifies chanstate(c.writeSem), wclosed(c.readConn), chanstate(c.onlineSig), chanstate(c.offlineSig), chanstate(qat(c.onlineSig, 0)), chanstate(qat(c.offlineSig, 0)), c.readConn, c.bigMessage, c.bufr, c.peek, chanstate(c.pingAck), region("map.map[uint16]mqtt.unorderedCallback"), region("map.len"), region("chan.len.error"), region("chan.head.error"), region("chan.q.error")
 //@ requires writable(c) && sigfull(c) && c.readConn != nil && c.pingAck != nil && !closed(c.pingAck) && cap(c.pingAck) == 1 && c.perPacketID != nil
-//@ at[C10] recv writeSem#2: assert wclosed(c.readConn)
+//@ at[C10] recv writeSem#1: assert wclosed(c.readConn)
 //@ ensures[C07] c.pendingAck == old(c.pendingAck) && forall(k, 0, len(c.pendingAck), c.pendingAck[k] == old(c.pendingAck[k]))
 //@ ensures[C10] !closed(c.writeSem) ==> wclosed(old(c.readConn))
 //@ ensures[C10,C18] !closed(c.writeSem) ==> len(c.writeSem) == 1 && qat(c.writeSem, 0) == boxed(connSignal, 0) && c.readConn == nil && c.bufr == nil && c.bigMessage == nil && c.peek == nil
@@ -1108,8 +1108,8 @@ package mqtt
 // The slot is shared with the read routine (which hands it to a PINGRESP) and with other callers: while the
 // write blocks, its content may change. What a Ping takes back out of the slot must be its own channel.
 //@ at[C11] call write#1: interference chanstate(c.pingAck)
-//@ at[C11,id=own_slot] recv pingAck#1: assert len(c.pingAck) > 0 ==> qat(c.pingAck, 0) == done
-//@ at[C11,id=own_slot] recv pingAck#2: assert len(c.pingAck) > 0 ==> qat(c.pingAck, 0) == done
+//@ at[C11,id=own_slot] selrecv pingAck#1: assert len(c.pingAck) > 0 ==> qat(c.pingAck, 0) == done
+//@ at[C11,id=own_slot] selrecv pingAck#2: assert len(c.pingAck) > 0 ==> qat(c.pingAck, 0) == done
 //@ at[C09] call write#1: assert len(p) == 2 && p[0] == 192 && p[1] == 0 && len(c.pingAck) == 1
 //@ ensures[C11,C14,C17] old(len(c.pingAck)) == 1 ==> err != nil && Is(err, ErrMax) && forall(k, wire_len(k) == old(wire_len(k))) && len(c.pingAck) == 1 && qat(c.pingAck, 0) == old(qat(c.pingAck, 0))
 //@ ensures[C14] err != nil && Is(err, ErrMax) ==> forall(k, wire_len(k) == old(wire_len(k)))
